@@ -113,6 +113,10 @@ class QuantMixin:
         gen = arg.generators[0]
         itv = self.ev(gen.iter, fr)
         items = self.iter_items(itv, gen.iter)
+        rng = None
+        so = self.static_of(itv)
+        if items is None and isinstance(so, GenObj) and so.kind == 'range' and len(so.payload) == 1:
+            rng = smt.int_of(so.payload[0])
         if items is not None:
             for x in items:
                 sub = Frame(fr.func, fr.module, parent=fr, cls=fr.cls)
@@ -126,9 +130,14 @@ class QuantMixin:
                 if not is_all and self.branch(t):
                     return smt.TRUE
             return smt.mk_bool(is_all)
-        sv = self.to_seq_val(itv, gen.iter)
-        S = self.get_seq(sv)
-        n = z3.Length(S)
+        if rng is not None:
+            # quantification over range(n): the index domain is shared by all range quantifiers
+            S = z3.Const('INT_DOMAIN', smt.SeqV)
+            n = rng
+        else:
+            sv = self.to_seq_val(itv, gen.iter)
+            S = self.get_seq(sv)
+            n = z3.Length(S)
         snap = self.st.snapshot()
 
         def P(i):
@@ -139,7 +148,7 @@ class QuantMixin:
                 def thunk():
                     sub = Frame(fr.func, fr.module, parent=fr, cls=fr.cls)
                     sub.is_spec = fr.is_spec
-                    self.assign(gen.target, self.elem(S, i), sub)
+                    self.assign(gen.target, smt.simp(Val.int(i)) if rng is not None else self.elem(S, i), sub)
                     for c in gen.ifs:
                         if not self.branch(self.truthy(self.ev(c, sub))):
                             return z3.BoolVal(is_all)
